@@ -182,7 +182,7 @@ func c01ExtTypeCases(tier string) []extCase {
 	for _, k := range c01ExtKinds() {
 		for _, p := range c01ExtPositions() {
 			for mi, m := range c01ExtMods() {
-				if tier != "thorough" && mi > 0 {
+				if mi > 0 { // modifiers only on the struct and string kinds at property / items positions (both tiers)
 					// quick tier: modifiers only on the struct and string kinds at property / items positions
 					if !(k.name == "struct" || k.name == "string") || !(strings.HasSuffix(p.name, " property") || strings.Contains(p.name, "array items")) {
 						continue
@@ -263,16 +263,9 @@ func c01ExtCases(tier string) []c01Case {
 	for _, e := range append(c01ExtTypeCases(tier), c01ExtOtherCases()...) {
 		if e.HasOp {
 			add(e, "server")
-			if tier == "thorough" {
-				add(e, "client")
-				add(e, "cli")
-			}
 			continue
 		}
 		add(e, "model")
-		if tier == "thorough" && e.Kind != "other" {
-			add(e, "model", "--with-flatten=full")
-		}
 	}
 	return out
 }
